@@ -17,6 +17,7 @@ import (
 )
 
 type StateVar struct {
+	Free bool // free ghost: outside every frame
 	Name string
 	Sort string
 	Heap bool       // havocked by opaque calls
@@ -346,7 +347,9 @@ func (t *fnTrans) ghostVar(g *GhostVar, pkg *types.Package) *StateVar {
 		t.errorf("ghost %s: unknown type %s", g.Name, g.Type)
 		ty = types.Typ[types.Int]
 	}
-	return t.stateVar("gh_"+sanitize(g.Name), t.S.sortOf(ty), "ghost", false, ty)
+	sv := t.stateVar("gh_"+sanitize(g.Name), t.S.sortOf(ty), "ghost", false, ty)
+	sv.Free = g.Free
+	return sv
 }
 
 // ---------- well-formedness of introduced values ----------
